@@ -363,6 +363,9 @@ def load_settings(args: list[str]) -> Settings:
     except IsADirectoryError as ex:
         raise ValueError(f'refurb: "{file}" is a directory') from ex
 
+    except (tomllib.TOMLDecodeError, UnicodeDecodeError) as ex:  # pragma: no cover
+        raise ValueError(f'refurb: "{file}" is not a valid TOML file: {ex}') from ex
+
     except FileNotFoundError as ex:
         if cli_args.config_file:
             raise ValueError(f'refurb: "{file}" was not found') from ex
